@@ -11,8 +11,10 @@ def gen_cases(seed, tier):
     cases = []
     sizes = [1, 2, 3, 10, 40, 300] if tier == "quick" else [1, 2, 3, 10, 40, 300, 1000, 5000, 70000]
     n = 30 if tier == "quick" else 120
-    for i in range(n):
+    for i in range(n + (1 if tier == "quick" else 0)):
         nent = sizes[i % len(sizes)] if i < 2 * len(sizes) else rng.choice(sizes[:6])
+        if i == n:
+            nent = 65600            # quick tier: one store past 65535 entries (16-bit boundaries of index assignment), sorted
         sorted_store = i % 2 == 0
         c = dict(id="r%d" % i, stores=["plain"], variant_order=[], indexes=[], finds=[],
                  props=[dict(variant=None, kind="u", name="key"), dict(variant=None, kind="u", name="ref"),
